@@ -1774,12 +1774,18 @@ class Surface(SplineGeometry):
         # Input type validation
         if not isinstance(value, (list, tuple)):
             raise GeomdlException("'trims' setter only accepts a list or a tuple containing the trimming curves")
-        # Trim curve validation
+        # Set the array of trims (replacing the existing ones) with trim validation
+        existing_trims = self._trims
+        self._trims = self._init_array()
         for i, v in enumerate(value):
             try:
                 self.add_trim(v)
             except GeomdlException:
+                self._trims = existing_trims
                 raise GeomdlException("Invalid geometry at index " + str(i))
+        # The existing tessellation was generated with the replaced trims
+        if self._tsl_component is not None:
+            self._tsl_component.reset()
 
     @property
     def data(self):
@@ -2838,11 +2844,14 @@ class Volume(SplineGeometry):
         # Input type validation
         if not isinstance(value, (list, tuple)):
             raise GeomdlException("'trims' setter only accepts a list or a tuple containing the trimming surfaces")
-        # Trim curve validation
+        # Set the array of trims (replacing the existing ones) with trim validation
+        existing_trims = self._trims
+        self._trims = self._init_array()
         for i, v in enumerate(value):
             try:
                 self.add_trim(v)
             except GeomdlException:
+                self._trims = existing_trims
                 raise GeomdlException("Invalid geometry at index " + str(i))
 
     @property
